@@ -192,6 +192,14 @@ func Compile(originConf *Config, exprStr string) (*Expr, error) {
 		return nil, res.err
 	}
 
+	if conf.CompileOptions[ReportEvent] || conf.CompileOptions[Debug] {
+		// event nodes are interleaved with the real nodes
+		// and have to be addressable as well
+		if size := res.size + countEventNodes(ast, false); size > math.MaxInt16 {
+			return nil, fmt.Errorf("expression with event nodes cannot exceed a maximum of 32767 nodes, got: [%d]", size)
+		}
+	}
+
 	expr := buildExpr(conf, ast, res.size)
 
 	return expr, nil
@@ -474,6 +482,20 @@ func check(root *astNode) checkRes {
 	return checkRes{
 		size: size,
 	}
+}
+
+// countEventNodes returns the number of event nodes calAndSetEventNode adds:
+// one per node, except for the inlined children of fast operators
+func countEventNodes(root *astNode, inlined bool) int {
+	cnt := 1
+	if inlined {
+		cnt = 0
+	}
+	isFastOp := root.node.getNodeType() == fastOperator
+	for _, child := range root.children {
+		cnt += countEventNodes(child, isFastOp)
+	}
+	return cnt
 }
 
 func buildExpr(cc *Config, ast *astNode, size int) *Expr {
@@ -781,8 +803,8 @@ func calAndSetEventNode(e *Expr) {
 	var (
 		nodes          = e.nodes
 		size           = int16(len(nodes))
-		res            = make([]*node, 0, size*2)
-		parents        = make([]int16, 0, size*2)
+		res            = make([]*node, 0, int(size)*2)
+		parents        = make([]int16, 0, int(size)*2)
 		eventNodeIdxes = make([]int16, size)
 		realIdxes      = make([]int16, size)
 	)
